@@ -50,4 +50,36 @@ SizeOf(S, t) ==
     [] OTHER -> 0
 
 StructSize(S, name) == SizeOf(S, [ k |-> "struct", name |-> name ])
+
+(* byte position of every scalar component of a value of type t placed at `base`, in WGSL order          *)
+(* (struct members in order, array elements in order, matrix columns in order, vector components);       *)
+(* k = number of elements of a trailing runtime-sized array                                               *)
+RECURSIVE Positions(_, _, _, _), SeqPositions(_, _, _, _, _, _)
+SeqPositions(S, t, base, stride, n, k) ==
+  IF n = 0 THEN << >> ELSE Positions(S, t, base, k) \o SeqPositions(S, t, base + stride, stride, n - 1, k)
+RECURSIVE MemberPositions(_, _, _, _, _, _)
+MemberPositions(S, ms, offs, i, base, k) ==
+  IF i > Len(ms) THEN << >>
+  ELSE (IF Has(ms[i], "io") /\ ms[i].io.k = "builtin" THEN << >> ELSE Positions(S, ms[i].ty, base + offs[i], k))
+       \o MemberPositions(S, ms, offs, i + 1, base, k)
+Positions(S, t, base, k) ==
+  CASE t.k \in {"scalar", "atomic"} -> << base >>
+    [] t.k = "vec" -> [ i \in 1 .. t.n |-> base + (i - 1) * ScalarSize(t.s) ]
+    [] t.k = "mat" -> SeqPositions(S, [ k |-> "vec", n |-> t.r, s |-> t.s ], base,
+                                   RoundUp(IF t.r = 2 THEN 2 * ScalarSize(t.s) ELSE 4 * ScalarSize(t.s), t.r * ScalarSize(t.s)), t.c, k)
+    [] t.k = "array" -> SeqPositions(S, t.e, base, Stride(S, t.e), t.n, k)
+    [] t.k = "rtarray" -> SeqPositions(S, t.e, base, Stride(S, t.e), k, k)
+    [] t.k = "struct" -> MemberPositions(S, StructDef(S, t.name).members, MemberOffsets(S, t.name), 1, base, k)
+    [] OTHER -> << >>
+StructPositions(S, name, k) == Positions(S, [ k |-> "struct", name |-> name ], 0, k)
+(* length of the byte image: the struct size; with a trailing runtime array of k elements at least one element *)
+HasRtTail(S, name) == LET ms == StructDef(S, name).members IN ms[Len(ms)].ty.k = "rtarray"
+ImageLen(S, name, k) ==
+  IF ~HasRtTail(S, name) THEN StructSize(S, name)
+  ELSE LET ms == StructDef(S, name).members
+           offs == MemberOffsets(S, name)
+           n == Len(ms)
+           kk == IF k = 0 THEN 1 ELSE k
+       IN RoundUp(AlignOf(S, [ k |-> "struct", name |-> name ]), offs[n] + kk * Stride(S, ms[n].ty.e))
+HasExplicitLayoutAttrs(S, name) == \E m \in Range(StructDef(S, name).members) : Has(m, "align") \/ Has(m, "size")
 =============================================================================
